@@ -72,7 +72,10 @@ PROPS = {
         bounded=[("bounded/wrappers.py", "C07")],
         trusted=[L2_BASE],
         assumptions=["wrapped strategies must accept arbitrary index sets in the modes that offer labeled samples as candidates"],
-        explanation="base-class contracts of the multi-annotator validation / transformation; wrapper and IEThresh swept over the five candidate x annotator modes with a termination timer"),
+        explanation="base-class contracts of the multi-annotator validation (batch clipped to the candidate pairs, availability matrix aligned with the "
+                    "sorted candidates) and transformation (boolean availability mask, true exactly at the available pairs); wrapper and IEThresh "
+                    "swept over the five candidate x annotator modes, integer / array-valued requests and structured availability patterns with a "
+                    "termination timer"),
     "C08": dict(
         units=[("contracts.pool_base", has("representation")), ("contracts.frames", has("F8"))],
         bounded=[("bounded/pool.py", "C08")],
@@ -154,13 +157,17 @@ PROPS = {
         bounded=[("bounded/wrappers.py", "C19")],
         trusted=[L2_BASE],
         assumptions=["native partial_fit of scikit-learn estimators is trusted"],
-        explanation="random operation sequences compared with an independently retrained copy; precomputed-kernel speed-up compared with the plain classifier"),
+        explanation="view / base-view / kernel-cache contracts of IndexClassifierWrapper proved for every flag combination (fit, partial_fit against the contract "
+                    "of fit, native partial_fit, precompute, predict*); random operation sequences compared with an independently retrained copy; "
+                    "counter-models of the view obligations are replayed on a concrete wrapper with a recording stub classifier"),
     "C20": dict(
         units=[("contracts.pool_wrappers", None)],
         bounded=[("bounded/wrappers.py", "C20")],
         trusted=[L2_BASE],
         assumptions=["the parallel wrapper requires an inner strategy that scores candidate rows independently and deterministically"],
-        explanation="wrapped vs unwrapped queries for every compatible inner strategy, both exclude_non_subsample settings, int / float max_candidates, jobs 1..3"),
+        explanation="index algebra of SubSamplingWrapper.query proved against assumed callee contracts (draw size, reduced set, re-translation of indices "
+                    "and utilities, with and without utilities); wrapped vs unwrapped queries for every compatible inner strategy, both "
+                    "exclude_non_subsample settings, int / float max_candidates, jobs 1..3"),
 }
 
 
